@@ -193,6 +193,9 @@ private:
           hpair.second = 0;
         },
         std::make_tuple(galois::no_stats()));
+    // on_each only runs on the active threads; lists filled while more
+    // threads were active are still there
+    destruct_serial();
   }
 
 public:
